@@ -571,7 +571,55 @@ where
         }
         G::WithState(a) => build(a, env)?.with_state(St::default()).boxed(),
         G::Nested(..) | G::Tree => return Err("nested inputs are built by the token-tree runner".into()),
-        G::Pratt(..) => return Err("pratt handled by build_pratt".into()),
+        G::Pratt(atom, ops, table) => {
+            use chumsky::pratt::{infix, left, postfix, prefix, right, Operator};
+            let atom = build(atom, env)?;
+            let mut bops = vec![];
+            for op in ops {
+                let sym = op.sym;
+                let j = just::<_, I, X<E>>(I::Token::from_ch(sym)).map(move |_| Val::S(vec![sym]));
+                let w = |v: Val, e: &mut chumsky::input::MapExtra<'a, '_, I, X<E>>| {
+                    let sp = e.span().se();
+                    let c = e.ctx().clone();
+                    let ic = e.state().count;
+                    Val::w(v, sp.0, sp.1, c, ic)
+                };
+                let b: chumsky::pratt::Boxed<'a, 'a, I, Val, X<E>> = match op.fix.as_str() {
+                    "prefix" => prefix(op.bp, j, move |o: Val, r: Val, e: &mut _| w(Val::f("pre", o, r), e)).boxed(),
+                    "postfix" => postfix(op.bp, j, move |l: Val, o: Val, e: &mut _| w(Val::f("post", l, o), e)).boxed(),
+                    "infixl" => infix(left(op.bp), j, move |l: Val, o: Val, r: Val, e: &mut _| w(Val::f("in", Val::p(l, o), r), e)).boxed(),
+                    "infixr" => infix(right(op.bp), j, move |l: Val, o: Val, r: Val, e: &mut _| w(Val::f("in", Val::p(l, o), r), e)).boxed(),
+                    f => return Err(format!("unknown operator fixity {f}")),
+                };
+                bops.push(b);
+            }
+            match (table.as_str(), bops.len()) {
+                ("vec", _) => atom.pratt(bops).boxed(),
+                ("tuple", 1) => atom.pratt((bops.remove(0),)).boxed(),
+                ("tuple", 2) => {
+                    let (b, a) = (bops.pop().unwrap(), bops.pop().unwrap());
+                    atom.pratt((a, b)).boxed()
+                }
+                ("tuple", 3) => {
+                    let (c, b, a) = (bops.pop().unwrap(), bops.pop().unwrap(), bops.pop().unwrap());
+                    atom.pratt((a, b, c)).boxed()
+                }
+                ("tuple", 4) => {
+                    let (d, c, b, a) = (bops.pop().unwrap(), bops.pop().unwrap(), bops.pop().unwrap(), bops.pop().unwrap());
+                    atom.pratt((a, b, c, d)).boxed()
+                }
+                ("tuple", 5) => {
+                    let (e5, d, c, b, a) = (bops.pop().unwrap(), bops.pop().unwrap(), bops.pop().unwrap(), bops.pop().unwrap(), bops.pop().unwrap());
+                    atom.pratt((a, b, c, d, e5)).boxed()
+                }
+                ("tuple", 6) => {
+                    let (f6, e5, d, c, b, a) =
+                        (bops.pop().unwrap(), bops.pop().unwrap(), bops.pop().unwrap(), bops.pop().unwrap(), bops.pop().unwrap(), bops.pop().unwrap());
+                    atom.pratt((a, b, c, d, e5, f6)).boxed()
+                }
+                (t, n) => return Err(format!("unsupported operator table {t} of size {n}")),
+            }
+        }
     })
 }
 // t
